@@ -157,24 +157,19 @@ def check(prog, rep):
                                     problems.append(f"last polymer residue got {cp_[0]}, expected {exp}")
                     r2.add(key, not problems, "; ".join(problems) or
                            f"patches per residue: {[r['patches'] for r in chain]}", where)
-    # cyclic threshold constant
+    # cyclic threshold: decided by evaluation at the two ends of the admissible interval - a chain whose first N and last C are 1.346 A apart (the
+    # largest amide bond the code itself states) is cyclic, one whose ends are further apart than a peptide bond can be (PEPTIDE_DIST) is open
     consts = prog.module_constants("config.py")
     pd = consts.get("PEPTIDE_DIST")
-    cyc_cmp = None
-    for n in ast.walk(fi.node):
-        if isinstance(n, ast.Compare) and len(n.ops) == 1 and isinstance(n.ops[0], (ast.Lt, ast.LtE)):
-            v = try_fold(n.comparators[0], consts)
-            if isinstance(v, (int, float)) and "dist" in U(n.left):
-                cyc_cmp = (n, v)
-    if cyc_cmp is None:
-        r2.bad("cyclic-threshold", "no 'distance < constant' cyclic test found in assign_termini although the "
-                                   "cyclic path exists", where)
-    else:
-        n, v = cyc_cmp
-        hi = pd if isinstance(pd, (int, float)) else 1.7
-        r2.add("cyclic-threshold", 1.346 <= v <= hi,
-               f"cyclic test {U(n)!r}: threshold {v} must lie in [1.346 (largest amide bond the code itself states), "
-               f"PEPTIDE_DIST={hi}]", f"pdb2pqr/biomolecule.py:{n.lineno} (Biomolecule.assign_termini)")
+    hi = pd if isinstance(pd, (int, float)) else 1.7
+    verdicts = {}
+    for d in (1.346, hi + 0.001):
+        chain = build_chain(prog, model, TERMINI_SHAPES["AAA"])
+        model.assign_termini(chain, neutraln=False, neutralc=False, dist=d)
+        verdicts[d] = any(r_["patches"] for r_ in chain)
+    r2.add("cyclic-threshold", not verdicts[1.346] and verdicts[hi + 0.001],
+           f"ends 1.346 A apart: {'terminal patches applied (treated as open)' if verdicts[1.346] else 'cyclic, no termini'}; ends {hi + 0.001:.3f} A apart "
+           f"(beyond PEPTIDE_DIST={hi}): {'open, termini applied' if verdicts[hi + 0.001] else 'treated as cyclic'}", where)
 
     # ------------------------------------------------------------------ R3
     r3 = rep.rule("R3", "terminal patches are idempotent on the reference (re-invocation after a hidden-chain split)",
